@@ -140,6 +140,7 @@ def fo_strategy():
         'lever': st.booleans(),
         'dyn': st.sampled_from([0, 1, 1]),
         't0': st.sampled_from([0.0, 0.0, 345600.0]),             # time origin (seconds-of-week style stamps)
+        'imu': st.sampled_from(['uniform', 'uniform', 'two_intervals']),      # two_intervals: IMU intervals alternate 0.05 / 0.025 s
         'sub': st.integers(0, 2 ** 31 - 1),
     })
 
@@ -155,7 +156,10 @@ def _fo_run(ctx, case, s):
     dt = 1.0 / hz
     n = int(round(case['T'] * hz))
     t0 = float(case.get('t0', 0.0))
-    t = dt * np.arange(1, n + 1)               # time since the origin (signals are functions of it); stamps are t0 + t
+    # per-row interval lengths: uniform 20 Hz, or alternating 0.05 / 0.025 s (no interval longer than in the uniform case)
+    dts = np.full(n, dt) if case.get('imu', 'uniform') == 'uniform' else dt * np.where(np.arange(n) % 2 == 0, 1.0, 0.5)
+    t = dt * np.arange(1, n + 1) if case.get('imu', 'uniform') == 'uniform' else np.cumsum(dts)      # time since the origin (signals are functions of it); stamps are t0 + t
+    tt = np.r_[0.0, t]                         # time of trajectory row k (row 0 = the initial state)
     crs = np.radians(case['heading'])
     v = case['speed']
     dyn = case.get('dyn', 0)
@@ -172,10 +176,11 @@ def _fo_run(ctx, case, s):
     fb = np.empty_like(fn)
     C = C0.copy()
     for k in range(n):
-        Cm = C @ np.asarray(ROT.exp_so3(w[k] * dt / 2, float), float)
+        Cm = C @ np.asarray(ROT.exp_so3(w[k] * dts[k] / 2, float), float)
         fb[k] = Cm.T @ fn[k]
-        C = C @ np.asarray(ROT.exp_so3(w[k] * dt, float), float)
-    clean = pd.DataFrame(np.column_stack([np.full(n, dt), w * dt, fb * dt]), index=pd.Index(t0 + t, name='time'), columns=gen.INC_COLS)
+        C = C @ np.asarray(ROT.exp_so3(w[k] * dts[k], float), float)
+    D = dts[:, None]
+    clean = pd.DataFrame(np.column_stack([dts, w * D, fb * D]), index=pd.Index(t0 + t, name='time'), columns=gen.INC_COLS)
     truth = strapdown.Integrator(pva, wa).integrate(clean)
     sds = (10.0 * s, 0.5 * s, 1.0 * s, 5.0 * s)
     smv = 1e-3 * s * np.eye(3) if case['sm'] else None
@@ -192,8 +197,8 @@ def _fo_run(ctx, case, s):
     Tg = np.eye(3) + (1e-3 * s * np.diag(u[6:9]) if case['sm'] else 0)
     Ta = np.eye(3) + (1e-3 * s * np.diag(u[9:12]) if case['sm'] else 0)
     inc = clean.copy()
-    inc[gen.INC_COLS[1:4]] = (Tg @ (w * dt).T).T + bg * dt
-    inc[gen.INC_COLS[4:7]] = (Ta @ (fb * dt).T).T + ba * dt
+    inc[gen.INC_COLS[1:4]] = (Tg @ (w * D).T).T + bg * D
+    inc[gen.INC_COLS[4:7]] = (Ta @ (fb * D).T).T + ba * D
     err = pd.Series(np.array([sds[0]] * 3 + [sds[1]] * 3 + [sds[2]] * 2 + [sds[3]]) * u[12:21] * 0.7, index=gen.ERR_COLS)
     if not wa:
         err['down'] = 0.0
@@ -217,7 +222,8 @@ def _fo_run(ctx, case, s):
         elif pl == 'start':
             pos, frac = np.r_[0, pos], np.r_[0.0, frac]
         rows = pd.DataFrame([truth.iloc[k] if a == 0 else interp_pose(truth.iloc[k], truth.iloc[k + 1], a) for k, a in zip(pos, frac)],
-                            index=pd.Index(t0 + (pos + frac) * dt, name='time'), columns=TRAJ)
+                            index=pd.Index(t0 + (tt[pos] + frac * (tt[np.minimum(pos + 1, n)] - tt[pos]) if case.get('imu', 'uniform') != 'uniform'
+                                                 else (pos + frac) * dt), name='time'), columns=TRAJ)
         if arm is not None and cls != 'BodyVelocity':
             rates = pd.DataFrame(w[np.minimum(pos, n - 1)], index=rows.index, columns=['rate_x', 'rate_y', 'rate_z'])
             rows = transform.translate_trajectory(pd.concat([rows, rates], axis=1), arm)[TRAJ]       # the antenna's trajectory
@@ -279,7 +285,7 @@ TAU_SD = 0.02
 def run_first_order(case, ctx):
     ctx.label('mode=3D' if case['with_altitude'] else 'mode=2D', f"sensors={len(case['sensors'])}", 'sm' if case['sm'] else 'no_sm',
               'shared_epochs' if (case['sub'] % 2 == 0 and len(case['sensors']) > 1) else 'separate_epochs',
-              f"step={case['time_step']}", f"speed={case['speed']}", f"epochs={case.get('placement', 'rows')}",
+              f"step={case['time_step']}", f"speed={case['speed']}", f"epochs={case.get('placement', 'rows')}", f"imu={case.get('imu', 'uniform')}",
               'lever' if case.get('lever') else 'no_lever', 'banked_turn' if case.get('dyn') else 'gentle',
               't0=0' if not case.get('t0') else 't0=large',
               'bias_axes=leading_block' if (sorted(case.get('gyro_axes', [1]), reverse=True) == list(case.get('gyro_axes', [1])) and
